@@ -12,6 +12,7 @@ import (
 	"os/exec"
 	"path/filepath"
 	"sort"
+	"strconv"
 	"strings"
 )
 
@@ -128,6 +129,9 @@ func (e *Engine) goLiteral(val string, t types.Type, in *types.Package) (string,
 	qual := func(p *types.Package) string {
 		if p == in {
 			return ""
+		}
+		if e.litImports != nil {
+			e.litImports[p.Path()] = true
 		}
 		return p.Name()
 	}
@@ -285,12 +289,40 @@ func (e *Engine) replay(id string, r Result, verif string) (string, bool) {
 		names = append(names, n)
 	}
 	sort.Strings(names)
-	if vals == nil || len(vals) != len(names) {
+	if vals == nil || len(vals) < len(names) {
 		return e.writeReplayFile(id, r, verif, rec, "model not available or not parsable"), false
 	}
 	model := map[string]string{}
 	for i, n := range names {
 		model[n] = vals[i]
+	}
+	// byte-level string model: rebuild each string parameter from its length
+	// and leading bytes (as an SMT string literal, which goLiteral understands)
+	if extra := vals[len(names):]; len(extra) > 0 {
+		k := 0
+		for _, n := range names {
+			v := g.paramTerms[n]
+			if v.Type == nil || !isStringType(v.Type) || g.w.useStrings {
+				continue
+			}
+			if k+1+strModelBytes > len(extra) {
+				break
+			}
+			ln, ok := smtIntLit(extra[k])
+			var n64 int
+			fmt.Sscanf(ln, "%d", &n64)
+			if ok && n64 >= 0 && n64 <= strModelBytes {
+				bs := make([]byte, 0, n64)
+				for j := 0; j < n64; j++ {
+					bv, _ := smtIntLit(extra[k+1+j])
+					var c int
+					fmt.Sscanf(bv, "%d", &c)
+					bs = append(bs, byte(c))
+				}
+				model[n] = smtStringLit(string(bs))
+			}
+			k += 1 + strModelBytes
+		}
 	}
 	rec.Model = model
 	fn := g.fn
@@ -302,6 +334,7 @@ func (e *Engine) replay(id string, r Result, verif string) (string, bool) {
 	}
 	cnames = append(cnames, g.c.Params...)
 	var argExprs []string
+	e.litImports = map[string]bool{}
 	for i, p := range fn.Params {
 		lit, ok := e.goLiteral(model[cnames[i]], p.Type(), in)
 		if !ok {
@@ -331,6 +364,9 @@ func (e *Engine) replay(id string, r Result, verif string) (string, bool) {
 		prints = append(prints, fmt.Sprintf("\tfmt.Printf(\"GOBLVC-RESULT %d %%s\\n\", %s)", i, p))
 	}
 	imports := map[string]bool{"fmt": true, "testing": true}
+	for k := range e.litImports {
+		imports[k] = true
+	}
 	for _, a := range argExprs {
 		if strings.Contains(a, "num.Make") && in.Path() != "github.com/invopop/gobl/num" {
 			imports["github.com/invopop/gobl/num"] = true
@@ -409,8 +445,17 @@ func (e *Engine) evalPostConcrete(orig *FuncGen, model map[string]string, cnames
 	g.ownMod = map[string]bool{}
 	g.paramTerms = map[string]Val{}
 	env := &Env{g: g, vars: map[string]Val{}, heap: g.entryHeap, old: g.entryHeap, pkg: g.pkg}
+	concStr := func(v string, t types.Type) string {
+		if !g.w.useStrings && isStringType(t) && strings.HasPrefix(v, "\"") {
+			if gs, err := strconv.Unquote(smtStringToGo(v)); err == nil {
+				g.w.fullBytes[gs] = true
+				return g.w.StrLit(gs)
+			}
+		}
+		return v
+	}
 	for i, p := range orig.fn.Params {
-		env.vars[cnames[i]] = Val{model[cnames[i]], p.Type()}
+		env.vars[cnames[i]] = Val{concStr(model[cnames[i]], p.Type()), p.Type()}
 		g.paramTerms[cnames[i]] = env.vars[cnames[i]]
 	}
 	env.entryVars = g.paramTerms
@@ -424,7 +469,7 @@ func (e *Engine) evalPostConcrete(orig *FuncGen, model map[string]string, cnames
 	sig := orig.fn.Signature
 	for i, n := range orig.c.Results {
 		if i < sig.Results().Len() {
-			env.vars[n] = Val{results[i], sig.Results().At(i).Type()}
+			env.vars[n] = Val{concStr(results[i], sig.Results().At(i).Type()), sig.Results().At(i).Type()}
 		}
 	}
 	sv := NewSolver(filepath.Join(e.verif, ".cache"), 20, 4)
